@@ -48,6 +48,11 @@ pub fn linear_work(r: &mut Runner) {
                     if m * 2 > n {
                         continue;
                     }
+                    // the wasm worker has a fixed heap: keep the multi-megabyte
+                    // sizes to the native stages
+                    if cfg!(target_arch = "wasm32") && n > (1 << 20) {
+                        continue;
+                    }
                     let (hay, ndl) = recipes::build(fam, m, n, variant);
                     r.recipe = Some(recipes::recipe(fam, m, n, variant));
                     for (ai, &api) in apis.iter().enumerate() {
@@ -182,6 +187,13 @@ pub fn no_alloc(r: &mut Runner) {
         p_sub::structured_pairs(r, if lvl >= 2 { 1100 } else { 320 }, &mut run_pair);
         p_sub::prefilter_history(r, &mut run_pair);
     }
+    // finder reuse histories (as_ref / clone / into_owned, then more searches
+    // and iterations through the owned finder) and substring iterators with
+    // clone / into_owned mid-way: only the owning conversions may allocate
+    r.alloc_verdict = true;
+    crate::p_iter::purity(r);
+    crate::p_iter::sub_iters(r);
+    r.alloc_verdict = false;
     // memchr family and its iterators
     let mut buf = Vec::new();
     let nd = [b'a', 0x80, 0xFF];
